@@ -1,9 +1,13 @@
 import SaphyrModel.Sc.Scan3
+import SaphyrModel.Proofs.BlockLitBreaks
 /-! # C14 — Line-break style does not change the parse (component theorems)
 
 The character tests the scanner applies cannot tell LF from CR, and the three break primitives
-advance the position identically on LF, CR LF and CR. The whole-scanner relational theorem is not
-attempted; the check compares the implementation with itself under both substitutions. -/
+advance the position identically on LF, CR LF and CR. For one whole token kind the property is proved for every
+input of that shape: the content lines of a literal block scalar (`literal_block_break_blind`: any number of lines,
+any indentation, the three spellings chosen independently per line) decode to the same text — breaks reported as
+line feeds — and leave the scanner on the same line and in the same column. The whole-scanner relational theorem
+is not attempted; the check compares the implementation with itself under both substitutions. -/
 namespace SaphyrModel.C14
 open SaphyrModel SaphyrModel.Sc
 
@@ -28,6 +32,63 @@ theorem skipLinebreak_same_position (s : Sc) (rest : Str) (c : Char) (hk : s.inp
      | _, _, _ => False) := by
   have hc' : (c == '\n') = false := by simpa using hc
   simp [skipLinebreak, skipBlank, skipNl, liftI, In.next2Are, In.nextIsBreak, In.nextIs, In.skip, advance, modS,
-    Bind.bind, hk, isBreak, hc', hc]
+    Bind.bind, hk, isBreak, hc']
+
+open SaphyrModel.C14L SaphyrModel.C05 in
+/-- **The content of a literal block scalar does not depend on the spelling of its line breaks — for every
+    list of lines.** Take any content lines (non-empty, free of breaks and NUL), indented by `ind ≥ 1`, and end
+    each of them by a line feed, CR LF or a lone CR, independently per line and differently in two texts; let the
+    text continue with anything that does not start with a space or a break. From two string-input states on the
+    same line and column, whenever both content loops complete they return the same text (in which every break is
+    a line feed), the same pending breaks, and leave the scanner on the same line and in column 0 in front of the
+    same continuation. Only character indices may differ. -/
+theorem literal_block_break_blind (ind : Nat) (hind : ind ≠ 0) (tail : Str) (ht1 : tail.headD '\x00' ≠ ' ')
+    (ht2 : isBreak (tail.headD '\x00') = false)
+    (l : Str) (b1 b2 : Brk) (ls1 ls2 : List (Str × Brk)) (hsame : ls1.map Prod.fst = ls2.map Prod.fst)
+    (hl : GoodLine l) (hls : ∀ p ∈ ls1, GoodLine p.1)
+    (a : BlkAcc) (s1 s2 : Sc) (f1 f2 : Nat)
+    (hk1 : s1.inp.kind = .str) (hk2 : s2.inp.kind = .str) (hc1 : s1.mark.col = ind) (hc2 : s2.mark.col = ind)
+    (hline : s1.mark.line = s2.mark.line)
+    (hi1 : s1.inp.iter = l ++ (b1.txt ++ restLinesB ind ls1 tail))
+    (hi2 : s2.inp.iter = l ++ (b2.txt ++ restLinesB ind ls2 tail))
+    (r1 r2 : BlkAcc) (t1 t2 : Sc)
+    (h1 : blockScalarLines true ind f1 a s1 = .ok (r1, t1)) (h2 : blockScalarLines true ind f2 a s2 = .ok (r2, t2)) :
+    r1.str = r2.str ∧ r1.leadingBreak = r2.leadingBreak ∧ r1.trailingBreaks = r2.trailingBreaks ∧
+    t1.mark.line = t2.mark.line ∧ t1.mark.col = t2.mark.col ∧ t1.inp.iter = t2.inp.iter ∧
+    (∀ c ∈ r1.str.drop (a.str ++ a.leadingBreak ++ a.trailingBreaks).length, c ≠ '\r') := by
+  have hls2 : ∀ p ∈ ls2, GoodLine p.1 := by
+    intro p hp
+    have : p.1 ∈ ls2.map Prod.fst := List.mem_map_of_mem hp
+    rw [← hsame] at this
+    obtain ⟨q, hq, hqe⟩ := List.mem_map.mp this
+    rw [← hqe]; exact hls q hq
+  have hlen : ls1.length = ls2.length := by
+    have := congrArg List.length hsame
+    simpa using this
+  rcases literal_lines_any_break ind hind tail ht1 ht2 ls1 l b1 a s1 f1 hl hls hk1 hc1 hi1 with ⟨p, hp⟩ | ⟨u1, bl1, e1, _, i1, c1, n1⟩
+  · rw [hp] at h1; cases h1
+  rcases literal_lines_any_break ind hind tail ht1 ht2 ls2 l b2 a s2 f2 hl hls2 hk2 hc2 hi2 with ⟨p, hp⟩ | ⟨u2, bl2, e2, _, i2, c2, n2⟩
+  · rw [hp] at h2; cases h2
+  rw [e1] at h1; rw [e2] at h2
+  cases h1; cases h2
+  refine ⟨by simp only [joinB, hsame], rfl, rfl, by rw [n1, n2, hline, hlen], by rw [c1, c2], by rw [i1, i2], ?_⟩
+  intro c hc
+  simp only [List.drop_left'] at hc
+  refine joinLines_no_cr (ls1.map Prod.fst) l hl.2 ?_ c hc
+  intro l' hl' x hx
+  obtain ⟨q, hq, hqe⟩ := List.mem_map.mp hl'
+  rw [← hqe] at hx
+  exact (hls q hq).2 x hx
+
+/-- non-vacuity: two content lines `ab`, `c` at indentation 1, ended by CR LF and a lone CR in one text and by
+    line feeds in the other, continue with `x`: both content loops complete, with `ab\nc`, on line 4, column 0 -/
+example :
+    let st (t : Str) : Sc := { mkSc .str 0 t with mark := ⟨3, 2, 1⟩ }
+    let out (t : Str) : Option (Str × Nat × Nat × Str) :=
+      match blockScalarLines true 1 20 ⟨[], [], [], false⟩ (st t) with
+      | .ok (r, s) => some (r.str, s.mark.line, s.mark.col, s.inp.iter)
+      | _ => none
+    out ['a','b','\r','\n',' ','c','\r','x'] = some (['a','b','\n','c'], 4, 0, ['x']) ∧
+    out ['a','b','\n',' ','c','\n','x'] = out ['a','b','\r','\n',' ','c','\r','x'] := by decide +kernel
 
 end SaphyrModel.C14
